@@ -384,12 +384,14 @@ def run_PW(case, ses):
 # =====================================================================================
 #  Layer T - real objects, both front ends
 # =====================================================================================
-T_ATOMS = ['abs', 'norm1', 'norminf', 'norm2', 'square', 'sumsqr', 'exp', 'log', 'entropy', 'softplus', 'maxof', 'minof',
+T_ATOMS = ['abs', 'norm1', 'norminf', 'norm2', 'square', 'sumsqr', 'exp', 'log', 'expv', 'logv', 'entropy', 'softplus', 'maxof', 'minof',
            'gmean', 'power3', 'pexp', 'plog']
 CURV = dict(abs=1, norm1=1, norminf=1, norm2=1, square=1, sumsqr=1, exp=1, log=-1, entropy=-1, softplus=1, maxof=1,
-            minof=-1, gmean=-1, power3=1, pexp=1, plog=-1)
+            minof=-1, gmean=-1, power3=1, pexp=1, plog=-1, expv=1, logv=-1)
 CHAINS = [[], ['neg'], ['mul', 2.0], ['mul', -1.5], ['mul', -2.0, 'neg'], ['neg', 'rmul', -0.5], ['add_c', 1.0, 'mul', -1.0],
-          ['mul', 0.5, 'sub_aff'], ['rsub_aff', 'neg'], ['rsub_c', 2.0], ['mul', -2.0, 'rsub_aff', 'rmul', -1.0]]
+          ['mul', 0.5, 'sub_aff'], ['rsub_aff', 'neg'], ['rsub_c', 2.0], ['mul', -2.0, 'rsub_aff', 'rmul', -1.0],
+          # .sum() of an element-wise atom AFTER its sign was changed (the summed atom must keep the tracked sign)
+          ['sum'], ['neg', 'sum'], ['rmul', -2.0, 'sum'], ['rsub_c', 1.0, 'sum'], ['mul', 2.0, 'sum', 'neg'], ['neg', 'sum', 'neg']]
 FORMS = ['le', 'ge', 'rle', 'rge', 'eq', 'min', 'max']
 
 
@@ -406,6 +408,10 @@ def t_atom(rso, atom, x, scalar_out=True):
         return rso.square(x[0] + 1.0)
     if atom == 'sumsqr':
         return rso.sumsqr(x)
+    if atom == 'expv':
+        return rso.exp(x)
+    if atom == 'logv':
+        return rso.log(x + 3.0)
     if atom == 'exp':
         return rso.exp(x[0])
     if atom == 'log':
@@ -448,6 +454,8 @@ def apply_chain(f, chain, y):
         elif op == 'rsub_c':
             c = next(it)
             f, k = c - f, -k
+        elif op == 'sum':
+            f = f.sum()
         elif op == 'sub_aff':
             f = f - (2.0 * y - 1.0)
         elif op == 'rsub_aff':
